@@ -1,11 +1,11 @@
 package zv
 
 import (
-	"regexp"
 	"fmt"
 	"go/token"
 	"go/types"
 	"os"
+	"regexp"
 	"sort"
 	"strings"
 
@@ -671,7 +671,6 @@ func errSources(st *ConcState, v ssa.Value, classify func(*ssa.Call) string, dep
 	}
 	return out
 }
-
 
 // onlyCalledFrom: f is an eligible helper every call site of which lies in root (or in another such helper).
 func onlyCalledFrom(f, root *ssa.Function, depth int) bool {
